@@ -1,6 +1,7 @@
 (* C13 — a hot node killed at any instant resumes without losing messages or operations. *)
 From Coq Require Import String List NArith ZArith Bool.
 Require Import Fsm.EngineDefs Fsm.Types Fsm.Actions Fsm.Provider Node.Types Node.Process Node.Crash.
+Require Board.File Gen.Skeletons.
 Import ListNotations.
 
 (* the full statement (every crash point is harmless) is REFUTED: witness = the opening proposal,
@@ -30,3 +31,17 @@ Theorem C13_restart_keeps_durable_state :
   ns_rounds (h_st h) = ns_rounds st /\ ns_ops (h_st h) = ns_ops st /\ ns_deleted (h_st h) = ns_deleted st /\
   ns_sigs (h_st h) = ns_sigs st /\ ns_board (h_st h) = ns_board st.
 Proof. exact restart_keeps_durable_state. Qed.
+
+(* effect orders regenerated from the source: Poll handles a message before saving the offset past
+   it (a crash while handling leaves the saved offset at or before the message: it is fetched
+   again); executeOperation sends the result's messages before retiring the operation *)
+Theorem C13_poll_saves_offset_after_handling :
+  forall saved o, (saved <= o)%Z ->
+  match index_of_process Gen.Skeletons.poll_steps 0 with
+  | Some i => (offset_after (firstn i Gen.Skeletons.poll_steps) saved o <= o)%Z
+  | None => False
+  end.
+Proof. exact crash_while_handling_refetches. Qed.
+Theorem C13_execute_sends_before_retiring :
+  Gen.Skeletons.execute_steps = [Board.File.XLookup; Board.File.XSend; Board.File.XSaveFSM; Board.File.XDelete].
+Proof. exact execute_order_ok. Qed.
